@@ -156,6 +156,112 @@ def index_spaces(rep, M, rid):
         rep.violation(rid, "_get_primitive_system: consistent slicing", f"arrays are sliced by different masks {sorted(masks)} or not all of "
                       f"positions/numbers/letters/equivalence are sliced ({sorted(targets)})", M.where(SA + "._get_primitive_system"))
 
+    memo_spaces(rep, M, rid)
+
+
+GETTER_SPACE = {"get_wyckoff_letters_conventional": "C", "get_equivalent_atoms_conventional": "C",
+                "_get_spglib_wyckoff_letters_conventional": "C", "_get_spglib_equivalent_atoms_conventional": "C",
+                "get_wyckoff_letters_primitive": "P", "get_equivalent_atoms_primitive": "P",
+                "_get_spglib_wyckoff_letters_primitive": "P", "_get_spglib_equivalent_atoms_primitive": "P",
+                "get_wyckoff_letters_original": "O", "get_equivalent_atoms_original": "O",
+                "_get_spglib_wyckoff_letters_original": "O", "_get_spglib_equivalent_atoms_original": "O"}
+SPACE_TOKEN = {"primitive": "P", "conventional": "C", "original": "O"}
+KINDS = ("wyckoff_letters", "equivalent_atoms")
+
+
+def memo_spaces(rep, M, rid):
+    """per-atom memo attributes (`self._primitive_equivalent_atoms` ...) are assigned arrays over the index space their name
+    states, and every public per-atom getter hands out the memo of its own kind and space"""
+    cls = M.cls(SA)
+    meth = {f.name: f for f in cls.body if isinstance(f, ast.FunctionDef)}
+
+    def attr_space(name):
+        sp = [v for k, v in SPACE_TOKEN.items() if k in name.split("_")]
+        kd = [k for k in KINDS if k in name]
+        return (sp[0], kd[0]) if len(sp) == 1 and len(kd) == 1 else None
+
+    def tcall(c, env):
+        """space of a per-atom array / tuple returned by a self.<method>() call"""
+        f = c.func
+        if not (isinstance(f, ast.Attribute) and isinstance(f.value, ast.Name) and f.value.id == "self"):
+            return None
+        if f.attr in GETTER_SPACE:
+            return GETTER_SPACE[f.attr]
+        if f.attr == "_find_wyckoff_ground_state" and len(c.args) >= 2:
+            # (system, letters) - the letters are those passed in, relabelled atom by atom
+            return ("tuple", [None, tof(c.args[1], env)])
+        if f.attr == "_get_primitive_system" and len(c.args) >= 3:
+            a1, a2 = tof(c.args[1], env), tof(c.args[2], env)
+            return ("tuple", [None, "P" if a1 == "C" else ("ERR", a1), "P" if a2 == "C" else ("ERR", a2)])
+        return None
+
+    def tof(e, env):
+        if isinstance(e, ast.Name):
+            return env.get(e.id)
+        if isinstance(e, ast.Call):
+            if isinstance(e.func, ast.Attribute) and e.func.attr in ("array", "asarray", "copy") and (e.args or e.func.attr == "copy"):
+                return tof(e.args[0] if e.args else e.func.value, env)
+            return tcall(e, env)
+        if isinstance(e, ast.Attribute) and isinstance(e.value, ast.Name) and e.value.id == "self":
+            a = attr_space(e.attr)
+            return a[0] if a else None
+        return None
+    n_assign = 0
+    for fname, f in meth.items():
+        env = {}
+        for s in [x for x in ast.walk(f) if isinstance(x, ast.Assign)]:
+            v = tof(s.value, env)
+            for t in s.targets:
+                if isinstance(t, ast.Name):
+                    env[t.id] = v
+                elif isinstance(t, ast.Tuple) and isinstance(v, tuple) and v[0] == "tuple":
+                    for el, vv in zip(t.elts, v[1]):
+                        if isinstance(el, ast.Name):
+                            env[el.id] = vv
+        for s in [x for x in ast.walk(f) if isinstance(x, ast.Assign)]:
+            for t in s.targets:
+                if not (isinstance(t, ast.Attribute) and isinstance(t.value, ast.Name) and t.value.id == "self"):
+                    continue
+                a = attr_space(t.attr)
+                if a is None or (isinstance(s.value, ast.Constant) and s.value.value is None):
+                    continue
+                v = tof(s.value, env)
+                n_assign += 1
+                if isinstance(v, tuple) and v[0] == "ERR":
+                    rep.violation(rid, f"{fname}: `{norm(s)}`", f"the array is derived by _get_primitive_system from an input over the "
+                                  f"{SPACE.get(v[1], v[1])} atoms instead of the conventional atoms", M.where(SA + "." + fname, s))
+                elif v == a[0]:
+                    rep.ok(rid, f"{fname}: self.{t.attr} <- array over the {SPACE[a[0]]} atoms")
+                elif v in SPACE:
+                    rep.violation(rid, f"{fname}: `{norm(s)}`", f"the memo of the *{SPACE[a[0]]}* cell is assigned an array with one entry per "
+                                  f"*{SPACE[v]}* atom: for centred lattices the lengths differ by the centring multiplicity and the entries "
+                                  "do not line up with the atoms of the system handed out next to them", M.where(SA + "." + fname, s))
+                elif fname.startswith("_get_spglib_"):
+                    # typed from the dataset by the index-space rule above
+                    n_assign -= 1
+                else:
+                    raise AnalysisError(f"{fname}: index space of `{norm(s.value)}` assigned to self.{t.attr} could not be typed")
+    # public getters return the memo of their own kind and space
+    n_get = 0
+    for fname, f in meth.items():
+        if not fname.startswith("get_"):
+            continue
+        a = attr_space(fname)
+        if a is None or a[0] == "O":
+            continue
+        rets = [r for r in ast.walk(f) if isinstance(r, ast.Return) and r.value is not None]
+        for r in rets:
+            if isinstance(r.value, ast.Attribute) and isinstance(r.value.value, ast.Name) and r.value.value.id == "self":
+                n_get += 1
+                b = attr_space(r.value.attr)
+                if b == a:
+                    rep.ok(rid, f"{fname} returns self.{r.value.attr}")
+                else:
+                    rep.violation(rid, f"{fname}: `{norm(r)}`", f"hands out the memo `{r.value.attr}`, not the {a[1].replace('_', ' ')} of the "
+                                  f"{SPACE[a[0]]} cell", M.where(SA + "." + fname, r))
+    if n_assign < 6 or n_get < 4:
+        raise AnalysisError(f"memo index spaces: only {n_assign} typed memo assignments / {n_get} getters found (expected >= 6 / 4)")
+
 
 # ----------------------------------------------------------------------------- centring matrices (R12.1)
 def _ev_frac(n):
@@ -428,7 +534,7 @@ def letter_spaces(rep, M, rid):
         if isinstance(e, ast.Call):
             f = e.func
             if isinstance(f, ast.Attribute) and isinstance(f.value, ast.Name) and f.value.id == "self" and f.attr == "_get_spglib_wyckoff_letters_original":
-                return ("L", "OLD")
+                return ("L", "OLD", "atoms")
             if isinstance(f, ast.Attribute) and f.attr in ("keys", "values", "items", "get"):
                 d = ty(f.value, loc)
                 if d and d[0] == "D":
@@ -442,7 +548,7 @@ def letter_spaces(rep, M, rid):
                         k = ty(e.args[0], loc)
                         if k and k[0] == "L" and k[1] != d[1]:
                             errors.append((e, f"a dict keyed by {d[1]} letters is looked up with {k[1]} letters"))
-                        return ("L", d[2]) if isinstance(d[2], str) else d[2]
+                        return (("L", d[2]) + (k[2:3] if k and k[0] == "L" else ())) if isinstance(d[2], str) else d[2]
             if isinstance(f, ast.Name) and f.id in ("list", "tuple", "sorted") and e.args:
                 return ty(e.args[0], loc)
             if isinstance(f, ast.Attribute) and f.attr in ("array", "asarray") and e.args:
@@ -456,7 +562,7 @@ def letter_spaces(rep, M, rid):
             if isinstance(f, ast.Name) and f.id == "dict" and len(e.args) == 1:
                 z = ty(e.args[0], loc)
                 if z and z[0] == "ZIP" and z[1] and z[2] and z[1][0] == "L" and z[2][0] == "L":
-                    if not (len(z[1]) > 2 and len(z[2]) > 2):
+                    if not (z[1][2:3] == ("aligned",) and z[2][2:3] == ("aligned",)):
                         return None
                     return ("D", z[1][1], z[2][1])
             return None
@@ -468,11 +574,11 @@ def letter_spaces(rep, M, rid):
                 k = ty(e.slice, loc)
                 if k and k[0] == "L" and k[1] != base[1]:
                     errors.append((e, f"a dict keyed by {base[1]} letters is subscripted with {k[1]} letters"))
-                return ("L", base[2]) if isinstance(base[2], str) else base[2]
+                return (("L", base[2]) + (k[2:3] if k and k[0] == "L" else ())) if isinstance(base[2], str) else base[2]
             if base and base[0] == "L":
                 k = ty(e.slice, loc)
                 if k and k[0] == "POS":
-                    if len(base) < 3:
+                    if base[2:3] != ("aligned",):
                         errors.append((e, "positions are used to index a letter sequence that is not aligned with the permutation dict"))
                     return ("L", base[1])
                 return ("L", base[1])
@@ -496,7 +602,7 @@ def letter_spaces(rep, M, rid):
             bind(g.target, it, l2)
             r = ty(e.elt, l2)
             if r and r[0] == "L":
-                return ("L", r[1])
+                return ("L", r[1]) + r[2:3]
             if r and r[0] == "POS":
                 return ("POS", r[1])
             return None
@@ -507,7 +613,10 @@ def letter_spaces(rep, M, rid):
             return
         if isinstance(t, ast.Name):
             if it[0] == "L":
-                loc[t.id] = ("L", it[1])
+                loc[t.id] = ("L", it[1]) + it[2:3]
+            elif it[0] == "D":
+                # iterating a dict walks its keys: one per *letter of the group*, not one per atom
+                loc[t.id] = ("L", it[1], "aligned")
             elif it[0] == "POS":
                 loc[t.id] = it
         elif isinstance(t, ast.Tuple) and len(t.elts) == 2:
@@ -519,9 +628,9 @@ def letter_spaces(rep, M, rid):
                     loc[b.id] = ("L", it[2]) if isinstance(it[2], str) else it[2]
             elif it[0] == "ENUM":
                 if isinstance(a, ast.Name):
-                    loc[a.id] = ("POS", it[1][1]) if len(it[1]) > 2 else ("POS", "?")
+                    loc[a.id] = ("POS", it[1][1]) if it[1][2:3] == ("aligned",) else ("POS", "?")
                 if isinstance(b, ast.Name):
-                    loc[b.id] = ("L", it[1][1])
+                    loc[b.id] = ("L", it[1][1]) + it[1][2:3]
             elif it[0] == "ZIP":
                 bind(a, it[1], loc)
                 bind(b, it[2], loc)
@@ -546,7 +655,7 @@ def letter_spaces(rep, M, rid):
                     and isinstance(s.value.func.value, ast.Name) and s.value.args:
                 t = ty(s.value.args[0])
                 if t and t[0] == "L":
-                    env[s.value.func.value.id] = ("L", t[1])
+                    env[s.value.func.value.id] = ("L", t[1]) + t[2:3]
             elif isinstance(s, ast.Return) and s.value is not None:
                 ret[0] = ty(s.value)
     visit(fn.body)
@@ -557,7 +666,11 @@ def letter_spaces(rep, M, rid):
         return
     if ret[0] is None:
         raise AnalysisError("get_wyckoff_letters_original: return value could not be typed in the letter-space discipline")
-    if ret[0][0] == "L" and ret[0][1] == "NEW":
+    if ret[0][0] == "L" and ret[0][1] == "NEW" and ret[0][2:3] != ("atoms",):
+        rep.violation(rid, "get_wyckoff_letters_original: result", "the returned letters are not one per atom of the analysed cell (the sequence is "
+                      "driven by the keys of the permutation table / another per-letter sequence): has_free_wyckoff_parameters and every per-atom consumer "
+                      "see letters the structure does not occupy", M.where(fq))
+    elif ret[0][0] == "L" and ret[0][1] == "NEW":
         rep.ok(rid, "get_wyckoff_letters_original returns NEW letters = permutation applied to spglib's (OLD) letters")
     else:
         rep.violation(rid, "get_wyckoff_letters_original: result", f"returns letters of the {ret[0][1] if len(ret[0]) > 1 else ret[0]} space; required the "
@@ -625,20 +738,52 @@ def handed_out_objects_not_mutated(rep, M, rid):
                           "but carries the primitive lattice)", M.where(fq))
     else:
         rep.ok(rid, "_get_primitive_system does not modify the conventional system it is given")
-    # no method other than the builder itself applies a mutator to the cached objects
+    # no method other than the builder itself applies a mutator to the cached objects (flow sensitive: a rebinding to a copy ends the exposure)
+    from .dataflow import Flow
+    from .cfg import walk_own
+    GETTERS = ("get_conventional_system", "get_primitive_system", "_get_spglib_conventional_system", "_get_spglib_primitive_system")
     n = 0
     for q, d in M.functions().items():
         if M.parent.get(q) != SA or d.name in ("get_conventional_system", "_find_wyckoff_ground_state", "set_system", "reset", "__init__"):
             continue
-        names = {}
-        for s2 in ast.walk(d):
-            if isinstance(s2, ast.Assign) and isinstance(s2.targets[0], ast.Name) and isinstance(s2.value, ast.Call) and isinstance(s2.value.func, ast.Attribute) \
-                    and s2.value.func.attr in ("get_conventional_system", "get_primitive_system", "_get_spglib_conventional_system"):
-                names[s2.targets[0].id] = s2.value.func.attr
-        for c in ast.walk(d):
-            if isinstance(c, ast.Call) and isinstance(c.func, ast.Attribute) and c.func.attr in MUTATORS and isinstance(c.func.value, ast.Name) \
-                    and c.func.value.id in names:
-                n += 1
-                rep.violation(rid, f"{d.name}: `{norm(c)[:60]}`", f"modifies the cached object returned by {names[c.func.value.id]}() in place", M.where(q, c))
+        if not any(isinstance(c, ast.Call) and isinstance(c.func, ast.Attribute) and c.func.attr in GETTERS for c in ast.walk(d)):
+            continue
+        fl = Flow(d)
+
+        def cached(name, at):
+            for dn in fl.rd[at].get(name, ()):
+                for kind, *rest in fl.def_value(dn, name):
+                    if kind == "expr" and isinstance(rest[0], ast.Call) and isinstance(rest[0].func, ast.Attribute) and rest[0].func.attr in GETTERS:
+                        return rest[0].func.attr
+                    if kind == "expr" and isinstance(rest[0], ast.Name) and rest[0].id != name:
+                        r = cached(rest[0].id, dn)
+                        if r:
+                            return r
+            return None
+        for node, data in fl.cfg.g.nodes(data=True):
+            if data["ast"] is None:
+                continue
+            for c in walk_own(data["ast"]):
+                if not isinstance(c, ast.Call):
+                    continue
+                hits = []
+                if isinstance(c.func, ast.Attribute) and c.func.attr in MUTATORS and isinstance(c.func.value, ast.Name):
+                    hits.append((c.func.value.id, f".{c.func.attr}()"))
+                for callee in M.callees_of_call(q, c):
+                    if callee not in E.mut:
+                        continue
+                    ps2 = [x for x in M.params(callee) if x != "self"]
+                    for i, a in enumerate(c.args):
+                        if isinstance(a, ast.Name) and i < len(ps2) and ps2[i] in E.mut[callee]:
+                            hits.append((a.id, f"{callee.split('.')[-1]}() modifies its parameter `{ps2[i]}` in place"))
+                    for k in c.keywords:
+                        if isinstance(k.value, ast.Name) and k.arg in E.mut[callee]:
+                            hits.append((k.value.id, f"{callee.split('.')[-1]}() modifies its parameter `{k.arg}` in place"))
+                for name, how in hits:
+                    src = cached(name, node)
+                    if src:
+                        n += 1
+                        rep.violation(rid, f"{d.name}: `{norm(c)[:60]}`", f"`{name}` is the cached object returned by {src}() ({how}): the system a caller "
+                                      "fetched earlier changes retroactively, and a second call sees the already modified object", M.where(q, c))
     if not n:
         rep.ok(rid, "no analyzer method applies a mutator to a cached conventional / primitive system it fetched")
